@@ -473,4 +473,30 @@ theorem getTrace_map_fst (t : Table) (avg : Bool) (mh : Option Int) :
     (getTrace t avg mh).map (·.1) = t.map (·.1) := by
   simp [getTrace, List.map_map, Function.comp_def]
 
+/-! ### re-entrant calls -/
+
+/-- the abstraction from the implementation's state to the specification's: a start reading `t0`
+    seen at clock `now` means `now - t0` has elapsed -/
+def absN (s : NState) : SState :=
+  { stack := s.stack.map fun (n, t0) => (n, s.now - t0), table := s.table }
+
+theorem absN_step (s : NState) (e : Ev) : absN (nstep s e) = sstep (absN s) e := by
+  cases e with
+  | enter n => simp [nstep, sstep, absN]
+  | leave =>
+    cases hs : s.stack with
+    | nil => simp [nstep, sstep, absN, hs]
+    | cons f rest => obtain ⟨n, t0⟩ := f; simp [nstep, sstep, absN, hs]
+  | tick dt =>
+    simp only [nstep, sstep, absN, List.map_map, SState.mk.injEq, and_true]
+    apply List.map_congr_left
+    intro ⟨n, t0⟩ _
+    simp only [Function.comp, Prod.mk.injEq, true_and]
+    ring
+
+theorem absN_run (evs : List Ev) (s : NState) : absN (nrun s evs) = srun (absN s) evs := by
+  induction evs generalizing s with
+  | nil => rfl
+  | cons e t ih => simp only [nrun, srun, List.foldl_cons] at *; rw [ih, absN_step]
+
 end KV.C20
